@@ -637,7 +637,7 @@ class DavSys:
                     views[nm]["propfind0"] = ms.responses[0].prop_text(dav.P_GETETAG)
         mkind = "calendar" if kind in ("calendar", "other") else "addressbook"
         dataprop = dav.P_CALDATA if mkind == "calendar" else dav.P_ADDRDATA
-        r = self.req("REPORT", base, dict(dav.XML_CT, Depth="1"), dav.multiget_body(mkind, [self.url(coll, n) for n in names], [dav.P_GETETAG, dataprop]))
+        r = self.req("REPORT", base, dict(dav.XML_CT, Depth="1"), dav.multiget_body(mkind, ["never-there.ics"] + [self.url(coll, n) for n in names], [dav.P_GETETAG, dataprop]))  # (a relative href the server cannot map to a path leads the list)
         a["multiget_status"] = r.status
         if r.status == 207:
             ms = dav.parse_multistatus(r.body)
